@@ -7,7 +7,8 @@ ID = "C15"
 LEAN_MODULE = "Ctrmml.Properties.C15"
 THEOREMS = ["C15_parse_routed", "C15_reader_never_foreign", "C15_wav_reader_total", "C15_validator_never_out_of_range",
             "C15_validate_routed", "C15_parsed_song_validates", "C15_optimize_routed", "C15_optimizer_never_foreign", "C15_stack_lists_complete",
-            "C15_mds_export_no_ub", "C15_mds_export_routed", "C15_link_stage_kinds", "C15_pipeline_total_partial", "C15_pipeline_total_mds_partial", "C15_pipeline_terminates",
+            "C15_mds_export_no_ub", "C15_mds_export_routed", "C15_link_stage_kinds", "C15_link_accepts_strict_files", "C15_exported_file_parses_partial", "C15_link_stage_routed_partial",
+            "C15_vgm_never_non_integer", "C15_vgm_export_no_ub_partial", "C15_pipeline_total_under_stage_hyps", "C15_pipeline_total_partial", "C15_pipeline_total_mds_partial", "C15_pipeline_terminates",
             "C15_modelled_components_never_foreign"]
 LEVEL = "other"
 STREAM = "total"
@@ -30,9 +31,12 @@ EXPLANATION = ("Proof side (Properties/C15): the pipeline model (Model/Pipeline)
                "Theorems, each for ALL inputs of its stage: the parse stage (whole MML reader, every byte string), the validate stage (every song without explicit END events — which includes every "
                "song the reader can produce), sample loading (every byte string as a WAV file), the optimise stage (every validated song that satisfies the decidable side conditions OptDomain of C01's "
                "termination theorem: pass loop ends, no stack list read outside its bounds, no get_track on a missing track, the validator after a pass ends) and the converter's undefined-behaviour "
-               "constructors (no RIFF-writer failure, no at() on an empty stream, no data_bank index outside the bank, no vector::at in the writer's player — for every input). Still explicit hypotheses of the composite "
-               "theorem: the MODEL's fixed writer budget (20 000 000 player steps per stream, recursion depth 64), VgmNoUB (the driver model reports no vector::at / non-integer step / writer fault), LinkOK (the linker model accepts "
-               "the converter's file or rejects it with an InputError), OptInDomain (with -O), and two residual stages without a model (VGM play loop outside Model/MdDriver's subset, definitions / platform commands outside C09/C11's models). "
+               "constructors (no RIFF-writer failure, no at() on an empty stream, no data_bank index outside the bank, no vector::at in the writer's player — for every input); the link stage never ends in a foreign outcome on ANY file the strict "
+               "container reader of C10 accepts (every foreign Linker.Err constructor excluded), and that reader accepts the converter's own file (partial: LinkFileHyps); the VGM driver never takes a non-integer step (every input) and, on the data "
+               "read_song built, never indexes a PSG envelope or the sample headers out of range nor makes the VGM_Writer fail (partial: VgmDataHyps). Still explicit hypotheses of the composite "
+               "theorem, all PER INPUT of the run (ExportHyps, Proofs/PipelineRound3): the MODEL's fixed writer budget (20 000 000 player steps per stream, recursion depth 64) on the converted song; for vgm PsgEnvsOK (every PSG-typed instrument's stored "
+               "envelope is well formed) and FilesSmall (side files below 1 GiB); for link TreeSmall (every RIFF data vector below 4 GiB), PlatformClean (no raw cmd with an index-bearing opcode), SeqFits (seq chunk at most 64 KiB), SideFilesSmall, "
+               "PcmKeysAreHeaders (PCM-tagged used_data_map keys select items stored by add_ins_pcm); OptInDomain (with -O); and two residual stages without a model (VGM play loop outside Model/MdDriver's subset, definitions / platform commands outside C09/C11's models). "
                "Execution side: every generated text runs through the real code in-process under ASan+UBSan (alignment check on) in a forked child; the judge applies the outcome set {ok, InputError with a message} to the implementation's "
                "answer. Correspondence: the compiled pipeline model (Driver/Total.lean) names the first stage whose outcome is not ok and its class "
                "(ok / input_error@stage / foreign@stage) and is compared per stage with the harness' answer (checks/c15.py agree()), now including the link stage (Model/Linker) and the VGM export (Model/MdDriver); `unmodelled@S` "
@@ -782,16 +786,22 @@ LEVEL_TEXT = ("Level `other` (mixed proof + execution, stated as partial). PROVE
               "shown equal to the run with the ideal validator (C15_optimize_routed, C15_optimizer_never_foreign, C15_stack_lists_complete); (5) export mds — for EVERY input the converter model never fails in the RIFF writer, "
               "never reports at() on an empty stream, never indexes data_bank outside the bank and its writer's player never hits the vector::at of the final-pass break (C15_mds_export_no_ub, C15_mds_export_routed); the two other "
               "undefined-behaviour constructors of the model were REACHABLE and are repaired in the repository: header_size wrapping at 16 bits (5952bf5) and a raw `cmd` loop end outside a loop = top() of an empty std::stack, SIGSEGV (3e0ed67); "
-              "(6) RIFF reader, conf parser, VGM writer have no UB outcome (collected from C13/C20/C08); (7) the composition (C15_pipeline_total_partial, C15_pipeline_terminates) and the mds path without -O with no residual at all under two hypotheses "
-              "decided by evaluation (C15_pipeline_total_mds_partial). "
-              "NOT PROVED, tested: the MODEL's writer budget (20 000 000 steps per stream, depth 64), the driver model's vector::at / non-integer-step / writer-fault outcomes (VgmNoUB), that the linker accepts what the converter wrote (LinkOK), "
+              "(6) RIFF reader, conf parser, VGM writer have no UB outcome (collected from C13/C20/C08); (7) link — on EVERY byte string that C10's strict container reader accepts (PCM windows below 1 GiB) add_song / get_seq_data / the headers end in output or "
+              "an InputError: each foreign Linker.Err constructor (out_of_range, invalid_argument, out-of-bounds, hang, division by zero) is excluded (C15_link_accepts_strict_files); the strict reader accepts the converter's own file under the five named conditions of "
+              "LinkFileHyps (C15_exported_file_parses_partial, C15_link_stage_routed_partial; an export whose seq chunk exceeds 64 KiB is provably rejected by the strict reader — the converter bounds only the start of each stream); (8) export vgm — play_step never takes the "
+              "non-integer branch, for every driver data and song (C15_vgm_never_non_integer); on the data read_song built the PSG envelope stepper and the PCM sample lookup stay in range and the VGM_Writer does not fail, under PsgEnvsOK + FilesSmall "
+              "(C15_vgm_export_no_ub_partial; the wave_map part is proved: waveMapOK_of_readSong); (9) the composition with PER-INPUT hypotheses (C15_pipeline_total_partial over ExportHyps, C15_pipeline_terminates; round 2's form with universally "
+              "quantified stage hypotheses is kept as C15_pipeline_total_under_stage_hyps) and the mds path without -O with no residual at all under two hypotheses decided by evaluation (C15_pipeline_total_mds_partial). "
+              "NOT PROVED, tested: the MODEL's writer budget (20 000 000 steps per stream, depth 64) on the given song, PsgEnvsOK (read_song stores only well-formed PSG envelopes: the channel-level proof is done, the induction over add_ins_psg / read_song is not), "
+              "PcmKeysAreHeaders + PlatformClean + SeqFits + the size bounds TreeSmall / SideFilesSmall / FilesSmall for the link and vgm stages, "
               "songs outside OptDomain with -O, the VGM play loop outside Model/MdDriver's subset, instrument/platform-command inputs outside the "
               "C09/C11 models; and — for every stage — memory safety / UB-freedom of the compiled binary, which is observed by ASan+UBSan (alignment on) on generated inputs in a forked child "
               "with CPU limits, every outcome other than ok or an InputError with a message being a finding keyed by (class, first repository frame).")
 LEVEL_NOTE = ("Partial by construction. UNDER A THEOREM (all inputs): MML reader (parse stage), track/song validator, optimise stage on OptDomain, WAV loader, the converter's undefined-behaviour constructors (RIFF writer, at() on an "
-              "empty stream, data_bank index, the writer's vector::at), RIFF get_chunk/constructor, Conf::from_string, VGM_Writer buffer arithmetic, composition of stage outcomes. HYPOTHESES of the composite theorem "
-              "(StageHyps, Proofs/PipelineCompose): MdsBudgetOK (the model's own writer budget — not a property of the code), VgmNoUB (Model/MdDriver never returns oob / nonInteger / a VGM_Writer fault), LinkOK (Model/Linker accepts the "
-              "converter's output or rejects it with an InputError), OptInDomain (with -O: the parsed song satisfies OptDomain; decidable, checked by the model stream on every -O case), Residual routed (VGM play loop outside "
+              "empty stream, data_bank index, the writer's vector::at), the link stage on every strictly readable container, the driver's clock (non-integer step), RIFF get_chunk/constructor, Conf::from_string, VGM_Writer buffer arithmetic, composition of stage outcomes. HYPOTHESES of the composite theorem "
+              "(ExportHyps, Proofs/PipelineRound3 — each about the inputs the run of the given text hands to its export stage, not about all inputs): the model's own writer budget on the converted song (not a property of the code); vgm: PsgEnvsOK (every PSG-typed "
+              "instrument's stored envelope is level/sustain bytes followed by an end or a backward loop command) and FilesSmall (side files below 1 GiB) — the non-integer step and the PCM lookup are theorems; link: TreeSmall (RIFF data vectors below 4 GiB), "
+              "PlatformClean (no raw cmd with PAT/INS/PCM/PEG/MTAB), SeqFits (seq chunk at most 64 KiB: the bound of the strict reader the proof goes through, not of the linker), SideFilesSmall, PcmKeysAreHeaders — the linker on an accepted file is a theorem; OptInDomain (with -O: the parsed song satisfies OptDomain; decidable, checked by the model stream on every -O case), Residual routed (VGM play loop outside "
               "Model/MdDriver's subset, definitions or platform commands outside Model/MdsData / MdsPlatform). ONLY UNDER SANITIZER EXECUTION: those hypotheses, the tools' main(), and memory safety of the real "
               "binary in every stage. The executable pipeline model — now including the linker and the VGM driver — is compared per stage with the implementation on every generated input within stated bounds (EXPLANATION). Trusted: g++/ASan/UBSan "
               "runtimes, harness/h_total.cpp, the CPU limit as the definition of a hang, the Lean kernel and compiler, the hand-written models (Mml, Lexer, TrackBuilder, Tags, Player, Optimizer, "
